@@ -158,3 +158,10 @@ Definition limit_ok (code : list lins) : bool :=
     [sub rsp, sub_bytes] for the stack temporaries.  On entry rsp + 8 is 16-byte aligned (SysV). *)
 Definition frame_ok (temps pushes sub_bytes : Z) : bool :=
   (sub_bytes mod 8 =? 0) && (0 <=? temps) && (8 * temps <=? sub_bytes) && ((8 + 8 * pushes + sub_bytes) mod 16 =? 0).
+
+(** unchecked mode: the pointer move is the bare addition *)
+Definition mov_unsafe_ok (w : Z) (i : binstr) (code : list mins) : bool :=
+  match i with
+  | MovP d => ((w =? 8) || (w =? 16) || (w =? 32) || (w =? 64)) && code_eqb code [MAddRbp (w / 8 * d)]
+  | _ => false
+  end.
